@@ -51,10 +51,11 @@ Qed.
 
 Lemma refuse_new s t c :
   exists new, trace (refuse s t c) = new ++ trace s /\
-    (new = [EvRet t c RMachineError]
-     \/ (is_cont c = true /\ exists b, new = [EvRet t c RMachineError; EvPub (PCont b)])).
+    ((new = [EvRet t c RMachineError] /\ (is_cont c = false \/ cont_closed s = true))
+     \/ (is_cont c = true /\ cont_closed s = false /\ exists b, new = [EvRet t c RMachineError; EvPub (PCont b)])).
 Proof.
-  unfold refuse. destruct (is_cont c); [destruct (cont_closed (release s))|]; simpl; rewrite ?rl_trace.
+  unfold refuse. rewrite rl_cont_closed.
+  destruct (is_cont c); [destruct (cont_closed s)|]; simpl; rewrite ?rl_trace.
   - exists [EvRet t c RMachineError]. auto.
   - eexists [_; _]. split; [reflexivity|]. right. eauto.
   - exists [EvRet t c RMachineError]. auto.
@@ -165,12 +166,815 @@ Proof.
   destruct (refuse_rest s t c) as (R1 & R2 & R3 & R4 & R5).
   rewrite (appended_ext _ _ _ En) in *.
   assert (Hid : t0 = t /\ c0 = c).
-  { apply in_rev in Hin. destruct Hnew as [-> | (_ & b & ->)]; simpl in Hin.
+  { apply in_rev in Hin. destruct Hnew as [(-> & _) | (_ & _ & b & ->)]; simpl in Hin.
     - destruct Hin as [E | []]. inversion E. auto.
     - destruct Hin as [E | [E | []]]; inversion E. auto. }
   destruct Hid as (-> & ->). repeat split; auto.
   - left. repeat split; auto. rewrite (appended_ext _ _ _ En).
-    destruct Hnew as [-> | (Hc & b & ->)]; [left; reflexivity | right; split; auto; exists b; reflexivity].
+    destruct Hnew as [(-> & _) | (Hc & _ & b & ->)]; [left; reflexivity | right; split; auto; exists b; reflexivity].
   - apply core_refuse.
-  - eapply hooks_same; [exact En|]. destruct Hnew as [-> | (_ & b & ->)]; reflexivity.
+  - eapply hooks_same; [exact En|]. destruct Hnew as [(-> & _) | (_ & _ & b & ->)]; reflexivity.
 Qed.
+
+Lemma acquire_refused s0 s1 t c b t0 c0 pre :
+  trace s1 = pre ++ trace s0 -> has_me pre = false ->
+  In (EvRet t0 c0 RMachineError) (appended s0 (acquire s1 t c b)) ->
+  holder s1 = None /\ lockq s1 = [] /\ disallowed c b (st_fsm s1) /\
+  acquire s1 t c b = refuse (set_pc (set_holder s1 (Some t)) t c (if b then Granted2 else Granted1)) t c.
+Proof.
+  intros E Hp Hin. unfold acquire in *.
+  assert (Hq : forall x, trace x = trace s1 -> grows no_me s0 x).
+  { intros x Ex. exists pre. rewrite Ex. auto. }
+  destruct (holder s1); [exfalso; eapply no_me_not_in; [apply Hq | exact Hin]; reflexivity|].
+  destruct (lockq s1); [|exfalso; eapply no_me_not_in; [apply Hq | exact Hin]; reflexivity].
+  set (s2 := set_pc (set_holder s1 (Some t)) t c (if b then Granted2 else Granted1)) in *.
+  destruct (enter_cases s2 t c b) as [(Hd & Er) | (_ & Hg)]; [auto|].
+  exfalso. eapply no_me_not_in; [|exact Hin].
+  eapply (grows_pre _ s0 s2 _ pre); [exact E | exact Hg |]. intros n. apply no_me_plain. exact Hp.
+Qed.
+
+Lemma call_refused_finish s s2 t c pre t0 c0 :
+  trace s2 = pre ++ trace s -> core_of s2 = core_of s -> rest_of s2 = rest_of s ->
+  lockq s2 = [] -> tasks s2 = put_task (tasks s) t (c, Granted1) ->
+  find_task (tasks s) t = None -> holder s = None -> lockq s = [] -> disallowed c false (st_fsm s) ->
+  ((is_cont c = false /\ pre = [EvCall t c] /\ cont_plugins s2 = cont_plugins s) \/
+   (is_cont c = true /\ pre = [EvPub (PCont true); EvCall t c] /\
+    cont_plugins s2 = cont_plugins s ++ [(t, false)] /\ cont_closed s2 = false)) ->
+  In (EvRet t0 c0 RMachineError) (appended s (refuse s2 t c)) ->
+  t0 = t /\ c0 = c /\ refused_step s (refuse s2 t c) (Call t c) t c.
+Proof.
+  intros Et Ec Er Eq Ets Ef Hh Hq Hd Hk Hin.
+  destruct (refuse_new s2 t c) as (new & En & Hnew).
+  destruct (refuse_rest s2 t c) as (R1 & R2 & R3 & R4 & R5).
+  assert (En' : trace (refuse s2 t c) = (new ++ pre) ++ trace s) by (rewrite En, Et, app_assoc; reflexivity).
+  rewrite (appended_ext _ _ _ En') in *. rewrite rev_app_distr in *.
+  assert (Hshape : (is_cont c = false /\ new = [EvRet t c RMachineError] /\ pre = [EvCall t c]) \/
+                   (is_cont c = true /\ exists b, new = [EvRet t c RMachineError; EvPub (PCont b)] /\
+                                                  pre = [EvPub (PCont true); EvCall t c])).
+  { destruct Hk as [(Hc & -> & _) | (Hc & -> & _ & Hcc)].
+    - left. destruct Hnew as [(-> & _) | (Hc' & _)]; [auto | congruence].
+    - right. split; auto. destruct Hnew as [(_ & [Hc' | Hc']) | (_ & _ & b & ->)]; try congruence. eauto. }
+  assert (Hid : t0 = t /\ c0 = c).
+  { apply in_app_or in Hin.
+    destruct Hshape as [(_ & -> & ->) | (_ & b & -> & ->)]; simpl in Hin;
+      destruct Hin as [Hin | Hin]; repeat (destruct Hin as [Hin | Hin]; try discriminate Hin; try contradiction);
+      inversion Hin; auto. }
+  destruct Hid as (-> & ->).
+  assert (Ecore : core_of (refuse s2 t c) = core_of s) by (rewrite core_refuse; exact Ec).
+  split; auto. split; auto. unfold refused_step. repeat split; auto.
+  - right. repeat split; auto.
+    + rewrite (appended_ext _ _ _ En').
+      destruct Hshape as [(Hc & -> & ->) | (Hc & b & -> & ->)]; [left; auto | right; split; auto; exists b; reflexivity].
+    + rewrite R3, Eq. reflexivity.
+    + rewrite R4, Eq. reflexivity.
+    + rewrite R5, Eq, Ets. simpl. apply remove_put_absent. exact Ef.
+  - congruence.
+  - rewrite R2. destruct Hk as [(Hc & _ & ->) | (Hc & _ & -> & _)]; rewrite Hc; auto.
+    rewrite filter_app. simpl. unfold unreg at 2. simpl. rewrite Nat.eqb_refl. simpl. rewrite app_nil_r. reflexivity.
+  - eapply hooks_same; [exact En'|].
+    destruct Hshape as [(_ & -> & ->) | (_ & b & -> & ->)]; reflexivity.
+Qed.
+
+Lemma refused_by_call s t c t0 c0 :
+  CI s -> find_task (tasks s) t = None ->
+  In (EvRet t0 c0 RMachineError) (appended s (do_call s t c)) ->
+  t0 = t /\ c0 = c /\ refused_step s (do_call s t c) (Call t c) t c.
+Proof.
+  intros HC Ef Hin. unfold do_call in *. rewrite Ef in *.
+  assert (Hno : forall x, grows no_me s x -> In (EvRet t0 c0 RMachineError) (appended s x) -> False)
+    by (intros x Hg Hi; eapply no_me_not_in; eauto).
+  Ltac by_acquire Hin pre :=
+    match type of Hin with In _ (appended ?s (acquire ?s1 ?t ?c ?b)) =>
+      let A := fresh "A" in
+      destruct (acquire_refused s s1 t c b _ _ pre eq_refl eq_refl Hin) as (A1 & A2 & A3 & A4);
+      simpl in A1, A2, A3; rewrite A4 in *
+    end.
+  destruct c; cbn [nl_started nl_closed cont_closed running_process send_command set_trace] in *.
+  - (* CStart *)
+    destruct (nl_started s) eqn:En; [exfalso; eapply Hno; [|exact Hin]; leaf|].
+    by_acquire Hin [EvPub (PCont false); EvCall t CStart].
+    exfalso. apply A3. apply (ci_fresh _ HC En).
+  - by_acquire Hin [EvCall t CRun].
+    eapply call_refused_finish; eauto; try reflexivity; auto 10.
+  - by_acquire Hin [EvCall t (CReset o)].
+    eapply call_refused_finish; eauto; try reflexivity; auto 10.
+  - (* CClose *)
+    destruct (nl_closed s); [exfalso; eapply Hno; [|exact Hin]; leaf|]. simpl in Hin.
+    destruct (nl_started s) eqn:En.
+    + by_acquire Hin [EvCall t CClose]. destruct A3 as (? & _). discriminate.
+    + by_acquire Hin [EvPub (PCont false); EvCall t CClose].
+      exfalso. apply A3. apply (ci_fresh _ HC En).
+  - destruct (cont_closed s) eqn:Ecc; [exfalso; eapply Hno; [|exact Hin]; leaf|].
+    by_acquire Hin [EvPub (PCont true); EvCall t CRunCont].
+    eapply call_refused_finish; eauto; try reflexivity; auto 10.
+  - destruct (cont_closed s) eqn:Ecc; [exfalso; eapply Hno; [|exact Hin]; leaf|].
+    by_acquire Hin [EvPub (PCont true); EvCall t CRunContWait].
+    eapply call_refused_finish; eauto; try reflexivity; auto 10.
+  - by_acquire Hin [EvCall t CRunSession].
+    eapply call_refused_finish; eauto; try reflexivity; auto 10.
+  - exfalso. eapply Hno; [|exact Hin]. destruct (running_process s); leaf.
+  - exfalso. eapply Hno; [|exact Hin]. destruct (send_command s); leaf.
+Qed.
+
+Lemma appended_same s s' : trace s' = trace s -> appended s s' = [].
+Proof. intros E. apply (appended_ext s s' []). exact E. Qed.
+
+Theorem refused_on_history s l t c :
+  LkS s -> CI s -> In (EvRet t c RMachineError) (appended s (step s l)) -> refused_step s (step s l) l t c.
+Proof.
+  intros HL HC Hin. destruct l as [t' c' | t' | | o]; simpl in *.
+  - destruct (find_task (tasks s) t') eqn:Ef.
+    + unfold do_call in Hin. rewrite Ef in Hin. rewrite appended_same in Hin by reflexivity. destruct Hin.
+    + destruct (refused_by_call s t' c' t c HC Ef Hin) as (-> & -> & H). exact H.
+  - destruct (find_task (tasks s) t') as [[c' p]|] eqn:Ef.
+    + destruct p; try (exfalso; eapply no_me_not_in; [|exact Hin]; apply do_step_nome; auto; intros c0 E; congruence).
+      destruct (refused_by_step s t' c' t c HL Ef Hin) as (-> & -> & H). exact H.
+    + exfalso. eapply no_me_not_in; [|exact Hin]; apply do_step_nome; auto; intros c0 E; congruence.
+  - exfalso. eapply no_me_not_in; [apply g_step_run | exact Hin].
+  - exfalso. eapply no_me_not_in; [|exact Hin]. unfold do_child_exit. destruct (alive s); leaf.
+Qed.
+
+(** ---- A2: when a request that has the lock ends in MachineError ---- *)
+Definition accepted_effect (s s' : state) (t : nat) (c : call) : Prop :=
+  match c with
+  | CReset o =>
+    st_fsm s' = st_fsm s /\ runt s' = runt s /\
+    exists p, (p = Z_G1 \/ p = Z_G1b) /\ find_task (tasks s') t = Some (c, p)
+  | _ =>
+    st_fsm s' = Running /\ runt s' = Some RT_New /\ run_finished s' = Some false /\ run_owner s' = t /\
+    find_task (tasks s') t = Some (c, R_WaitStarted) /\ trace s' = trace s
+  end.
+
+Lemma disallowed_dec c b f : disallowed c b f \/ ~ disallowed c b f.
+Proof.
+  unfold disallowed. destruct c, f, b; try tauto; try (left; discriminate); try (right; intros H; apply H; reflexivity);
+    try (left; split; [reflexivity | discriminate]); try (left; split; discriminate);
+    try (right; intros (H & _); discriminate); try (right; intros (_ & H); apply H; reflexivity);
+    try (right; intros (H & _); apply H; reflexivity).
+Qed.
+
+Lemma refuse_has_ret s0 s t c pre : trace s = pre ++ trace s0 ->
+  In (EvRet t c RMachineError) (appended s0 (refuse s t c)).
+Proof.
+  intros E. destruct (refuse_new s t c) as (new & En & Hnew).
+  assert (En' : trace (refuse s t c) = (new ++ pre) ++ trace s0) by (rewrite En, E, app_assoc; reflexivity).
+  rewrite (appended_ext _ _ _ En'). apply -> in_rev. apply in_or_app. left.
+  destruct Hnew as [(-> & _) | (_ & _ & b & ->)]; left; reflexivity.
+Qed.
+
+Lemma enter_accept s t c :
+  (runlike c = true \/ exists o, c = CReset o) -> ~ disallowed c false (st_fsm s) ->
+  accepted_effect s (enter s t c false) t c.
+Proof.
+  intros Hc Hnd. unfold enter, enter_run, enter_reset, accepted_effect, disallowed in *.
+  destruct c; try (destruct Hc as [Hc | (o' & Hc)]; discriminate);
+    try (destruct (st_fsm s); try (exfalso; apply Hnd; discriminate); simpl; rewrite find_put_eq; auto 10; fail).
+  destruct (st_fsm s) eqn:Ef; try (exfalso; apply Hnd; split; discriminate);
+    destruct (o_stmt o); simpl; rewrite ?ar_fsm, ?ar_runt, ?apply_rest_tasks; simpl; rewrite ?Ef, find_put_eq; eauto 10.
+Qed.
+
+Theorem granted_outcome s t c :
+  LkS s -> find_task (tasks s) t = Some (c, Granted1) -> (runlike c = true \/ exists o, c = CReset o) ->
+  let s' := step s (Step t) in
+  holder s = Some t /\
+  (In (EvRet t c RMachineError) (appended s s') <-> disallowed c false (st_fsm s)) /\
+  (~ disallowed c false (st_fsm s) -> accepted_effect s s' t c).
+Proof.
+  intros HL Ef Hc. cbv zeta. simpl.
+  assert (Ed : do_step s t = enter s t c false) by (unfold do_step; rewrite Ef; reflexivity).
+  split; [eapply (lk_holder_of _ _ _ HL); eauto|]. split; [split|].
+  - intros Hin. destruct (refused_by_step s t c t c HL Ef Hin) as (_ & _ & H). apply H.
+  - intros Hd. rewrite Ed. destruct (enter_cases s t c false) as [(_ & Er) | (Hnd & _)]; [|contradiction].
+    rewrite Er. apply (refuse_has_ret s s t c []). reflexivity.
+  - intros Hnd. rewrite Ed. apply enter_accept; auto.
+Qed.
+
+(** the same when the lock is free and the request is judged inside the [Call] label;
+    when the lock is busy the request only queues *)
+Theorem direct_outcome s t c :
+  find_task (tasks s) t = None -> (runlike c = true \/ exists o, c = CReset o) ->
+  (is_cont c = true -> cont_closed s = false) ->
+  let s' := step s (Call t c) in
+  (holder s = None -> lockq s = [] ->
+   (disallowed c false (st_fsm s) -> In (EvRet t c RMachineError) (appended s s')) /\
+   (~ disallowed c false (st_fsm s) ->
+    match c with
+    | CReset o => st_fsm s' = st_fsm s /\ runt s' = runt s /\
+                  exists p, (p = Z_G1 \/ p = Z_G1b) /\ find_task (tasks s') t = Some (c, p)
+    | _ => st_fsm s' = Running /\ runt s' = Some RT_New /\ run_finished s' = Some false /\ run_owner s' = t /\
+           find_task (tasks s') t = Some (c, R_WaitStarted)
+    end)) /\
+  (holder s <> None \/ lockq s <> [] ->
+   find_task (tasks s') t = Some (c, WaitLock1) /\ core_of s' = core_of s /\
+   forall t0 c0 r, ~ In (EvRet t0 c0 r) (appended s s')).
+Proof.
+  intros Ef Hc Hcc. cbv zeta. simpl. unfold do_call. rewrite Ef.
+  assert (Hacq : forall s1 pre, trace s1 = pre ++ trace s -> st_fsm s1 = st_fsm s -> runt s1 = runt s ->
+            holder s1 = holder s -> lockq s1 = lockq s -> core_of s1 = core_of s ->
+            (forall t0 c0 r, ~ In (EvRet t0 c0 r) pre) ->
+     (holder s = None -> lockq s = [] ->
+      (disallowed c false (st_fsm s) -> In (EvRet t c RMachineError) (appended s (acquire s1 t c false))) /\
+      (~ disallowed c false (st_fsm s) ->
+        accepted_effect s1 (acquire s1 t c false) t c)) /\
+     (holder s <> None \/ lockq s <> [] ->
+      find_task (tasks (acquire s1 t c false)) t = Some (c, WaitLock1) /\ core_of (acquire s1 t c false) = core_of s /\
+      forall t0 c0 r, ~ In (EvRet t0 c0 r) (appended s (acquire s1 t c false)))).
+  { intros s1 pre Et Efs Er Eh Eq Eco Hpre. unfold acquire. rewrite Eh, Eq. split.
+    - intros -> ->. set (s2 := set_pc (set_holder s1 (Some t)) t c Granted1). split.
+      + intros Hd. destruct (enter_cases s2 t c false) as [(_ & Ee) | (Hnd & _)].
+        * rewrite Ee. apply (refuse_has_ret s s2 t c pre). exact Et.
+        * exfalso. apply Hnd. simpl. rewrite Efs. exact Hd.
+      + intros Hnd. assert (Ha : accepted_effect s2 (enter s2 t c false) t c).
+        { apply enter_accept; auto. simpl. rewrite Efs. exact Hnd. }
+        unfold accepted_effect in *. destruct c; exact Ha.
+    - intros Hb.
+      assert (Eb : (match holder s with Some _ => set_pc (set_lockq s1 (lockq s ++ [t])) t c WaitLock1
+                    | None => match lockq s with [] => enter (set_pc (set_holder s1 (Some t)) t c Granted1) t c false
+                              | _ :: _ => set_pc (set_lockq s1 (lockq s ++ [t])) t c WaitLock1 end end)
+                   = set_pc (set_lockq s1 (lockq s ++ [t])) t c WaitLock1).
+      { destruct (holder s); auto. destruct (lockq s); auto. destruct Hb; congruence. }
+      match type of Eb with ?L = _ => change (match holder s with
+              | Some _ => set_pc (set_lockq s1 (lockq s ++ [t])) t c WaitLock1
+              | None => match lockq s with
+                        | [] => enter (set_pc (set_holder s1 (Some t)) t c Granted1) t c false
+                        | _ :: _ => set_pc (set_lockq s1 (lockq s ++ [t])) t c WaitLock1
+                        end
+              end) with L end.
+      rewrite Eb. simpl. rewrite find_put_eq. split; auto. split; [exact Eco|].
+      intros t0 c0 r Hin. rewrite (appended_ext _ _ pre) in Hin by exact Et. apply in_rev in Hin. eapply Hpre; eauto. }
+  assert (Hp1 : forall t0 c0 r, ~ In (EvRet t0 c0 r) [EvCall t c]) by (intros t0 c0 r [E | []]; discriminate).
+  assert (Hp2 : forall t0 c0 r, ~ In (EvRet t0 c0 r) [EvPub (PCont true); EvCall t c])
+    by (intros t0 c0 r [E | [E | []]]; discriminate).
+  assert (Hfin : forall s1,
+     ((holder s = None -> lockq s = [] ->
+      (disallowed c false (st_fsm s) -> In (EvRet t c RMachineError) (appended s (acquire s1 t c false))) /\
+      (~ disallowed c false (st_fsm s) -> accepted_effect s1 (acquire s1 t c false) t c)) /\
+     (holder s <> None \/ lockq s <> [] ->
+      find_task (tasks (acquire s1 t c false)) t = Some (c, WaitLock1) /\ core_of (acquire s1 t c false) = core_of s /\
+      forall t0 c0 r, ~ In (EvRet t0 c0 r) (appended s (acquire s1 t c false)))) ->
+     st_fsm s1 = st_fsm s -> runt s1 = runt s ->
+     (holder s = None -> lockq s = [] ->
+      (disallowed c false (st_fsm s) -> In (EvRet t c RMachineError) (appended s (acquire s1 t c false))) /\
+      (~ disallowed c false (st_fsm s) ->
+       match c with
+       | CReset o => st_fsm (acquire s1 t c false) = st_fsm s /\ runt (acquire s1 t c false) = runt s /\
+                     exists p, (p = Z_G1 \/ p = Z_G1b) /\ find_task (tasks (acquire s1 t c false)) t = Some (c, p)
+       | _ => st_fsm (acquire s1 t c false) = Running /\ runt (acquire s1 t c false) = Some RT_New /\
+              run_finished (acquire s1 t c false) = Some false /\ run_owner (acquire s1 t c false) = t /\
+              find_task (tasks (acquire s1 t c false)) t = Some (c, R_WaitStarted)
+       end)) /\
+     (holder s <> None \/ lockq s <> [] ->
+      find_task (tasks (acquire s1 t c false)) t = Some (c, WaitLock1) /\ core_of (acquire s1 t c false) = core_of s /\
+      forall t0 c0 r, ~ In (EvRet t0 c0 r) (appended s (acquire s1 t c false)))).
+  { intros s1 (H1 & H2) E1 E2. split; [|exact H2]. intros Hh Hq. destruct (H1 Hh Hq) as (Ha & Hb).
+    split; [exact Ha|]. intros Hnd. specialize (Hb Hnd). unfold accepted_effect in Hb.
+    destruct c; try tauto. rewrite <- E1, <- E2. exact Hb. }
+  destruct c; try (destruct Hc as [Hc | (o' & Hc)]; discriminate);
+    cbn [nl_started nl_closed cont_closed running_process send_command set_trace].
+  - apply Hfin; auto. apply (Hacq _ [EvCall t CRun]); auto.
+  - apply Hfin; auto. apply (Hacq _ [EvCall t (CReset o)]); auto.
+  - rewrite (Hcc eq_refl). apply Hfin; auto. apply (Hacq _ [EvPub (PCont true); EvCall t CRunCont]); auto.
+  - rewrite (Hcc eq_refl). apply Hfin; auto. apply (Hacq _ [EvPub (PCont true); EvCall t CRunContWait]); auto.
+  - apply Hfin; auto. apply (Hacq _ [EvCall t CRunSession]); auto.
+Qed.
+
+(** ---- A3: while a run task exists every run request that reaches its turn is refused ---- *)
+Lemma runlike_disallowed c f : runlike c = true -> (disallowed c false f <-> f <> Initialized).
+Proof. destruct c; simpl; try discriminate; tauto. Qed.
+
+Theorem second_run_refused s t c :
+  LkS s -> FI s -> runt s <> None -> runlike c = true ->
+  find_task (tasks s) t = Some (c, Granted1) ->
+  In (EvRet t c RMachineError) (appended s (step s (Step t))).
+Proof.
+  intros HL HF Hr Hc Ef. destruct (granted_outcome s t c HL Ef (or_introl Hc)) as (_ & Hiff & _).
+  apply Hiff. apply runlike_disallowed; auto. destruct HF as [_ HS]. intros Hf.
+  apply Hr. eapply Scal_idle; [exact HS | |]; rewrite Hf; discriminate.
+Qed.
+
+Theorem second_run_refused_call s t c :
+  FI s -> runt s <> None -> runlike c = true -> find_task (tasks s) t = None ->
+  (is_cont c = true -> cont_closed s = false) -> holder s = None -> lockq s = [] ->
+  In (EvRet t c RMachineError) (appended s (step s (Call t c))).
+Proof.
+  intros HF Hr Hc Ef Hcc Hh Hq. destruct (direct_outcome s t c Ef (or_introl Hc) Hcc) as (H & _).
+  destruct (H Hh Hq) as (H1 & _). apply H1. apply runlike_disallowed; auto. destruct HF as [_ HS]. intros Hf.
+  apply Hr. eapply Scal_idle; [exact HS | |]; rewrite Hf; discriminate.
+Qed.
+
+(** a reset is refused while the state is 'running' ... *)
+Theorem reset_refused_while_running s t o :
+  LkS s -> st_fsm s = Running -> find_task (tasks s) t = Some (CReset o, Granted1) ->
+  In (EvRet t (CReset o) RMachineError) (appended s (step s (Step t))).
+Proof.
+  intros HL Hf Ef. destruct (granted_outcome s t (CReset o) HL Ef) as (_ & Hiff & _); [right; eauto|].
+  apply Hiff. simpl. rewrite Hf. split; discriminate.
+Qed.
+
+(** ... but NOT while the run task is finishing (state 'finished', run task not yet ended):
+    it is accepted and then waits for the run task before it re-initialises *)
+Theorem reset_waits_for_run_task s t c p :
+  LkS s -> FI s -> runt s <> None -> find_task (tasks s) t = Some (c, p) -> p = Z_G1b \/ p = Z_WaitRunTask ->
+  core_of (step s (Step t)) = core_of s /\ find_task (tasks (step s (Step t))) t = Some (c, Z_WaitRunTask).
+Proof.
+  intros HL HF Hr Ef Hp. pose proof HF as [HP HS]. pose proof (HP _ _ _ Ef) as Hok.
+  simpl. unfold do_step. rewrite Ef. destruct (runt s) as [x|] eqn:Er; [|congruence].
+  destruct Hp as [-> | ->]; simpl in Hok.
+  - destruct (st_fsm s) eqn:Efs; try discriminate.
+    + exfalso. assert (E0 : Some x = None) by (eapply Scal_idle; [exact HS | discriminate | discriminate]). discriminate.
+    + split; [reflexivity|]. simpl. apply find_put_eq.
+  - split; [reflexivity | exact Ef].
+Qed.
+
+Definition finishing_labels : list label :=
+  [Call 0%nat CStart; Step 0%nat; Step 0%nat; Step 0%nat;
+   Call 1%nat CRun; StepRun; StepRun; StepRun; Step 1%nat; Step 1%nat; ChildExit OReturn; StepRun; StepRun].
+
+Lemma reset_while_finishing_witness :
+  let s := run_labels (init_state 7 1 false false) finishing_labels in
+  let c := CReset (mkOpts None None None None) in
+  runt s = Some RT_G_fin /\ st_fsm s = Finished /\
+  find_task (tasks (step s (Call 2%nat c))) 2%nat = Some (c, Z_G1b) /\
+  appended s (step s (Call 2%nat c))
+  = [EvCall 2%nat c; EvHook (mkHook HReset Finished None None None)].
+Proof. vm_compute. repeat split; reflexivity. Qed.
+
+(** ---- an accepted run request found the object idle ---- *)
+Definition runpc (p : pc) : bool :=
+  match p with R_WaitStarted | R_G | P_WaitRunFinished => true | _ => false end.
+
+Lemma runpc_granted p0 p : runpc p = true -> (p = p0 \/ p = granted_pc p0) -> p = p0.
+Proof. intros H [-> | ->]; auto. destruct p0; simpl in *; auto; discriminate. Qed.
+
+Ltac of_tac :=
+  fsimpl;
+  first [ apply of_refl | apply of_put | apply of_remove
+        | eapply of_trans; [apply of_rel | apply of_remove]
+        | eapply of_trans; [apply of_rel | apply of_put] ].
+
+Lemma of_refuse s t c : others_from (tasks s) (tasks (refuse s t c)) t.
+Proof. destruct (refuse_rest s t c) as (_ & _ & _ & _ & ->). eapply of_trans; [apply of_rel | apply of_remove]. Qed.
+
+Lemma of_close_trigger s t : others_from (tasks s) (tasks (close_trigger s t)) t.
+Proof.
+  unfold close_trigger, close_enter_closed. destruct (st_fsm s); try of_tac. destruct (runt s); of_tac.
+Qed.
+
+Lemma of_enter s t c b : others_from (tasks s) (tasks (enter s t c b)) t.
+Proof.
+  unfold enter, enter_start, enter_run, enter_reset, enter_close.
+  destruct c; try (destruct (st_fsm s); try apply of_refuse; of_tac); try apply of_refl.
+  - destruct (st_fsm s); try apply of_refuse; destruct (o_stmt o); of_tac.
+  - destruct b.
+    + simpl. destruct (st_fsm s); try apply (of_close_trigger (publish s PEndAll) t).
+      destruct (run_finished s) as [[|]|]; try apply (of_close_trigger (publish s PEndAll) t); of_tac.
+    + destruct (st_fsm s); try apply of_refuse; of_tac.
+Qed.
+
+Lemma of_acquire s t c b : others_from (tasks s) (tasks (acquire s t c b)) t.
+Proof.
+  unfold acquire. destruct (holder s); [of_tac|]. destruct (lockq s); [|of_tac].
+  eapply of_trans; [|apply of_enter]. of_tac.
+Qed.
+
+Lemma of_do_call s t c : others_from (tasks s) (tasks (do_call s t c)) t.
+Proof.
+  unfold do_call. destruct (find_task (tasks s) t); [apply of_refl|].
+  destruct c; cbn [nl_started nl_closed cont_closed running_process send_command set_trace];
+    try (match goal with |- others_from _ (tasks (acquire ?s1 _ _ _)) _ => exact (of_acquire s1 _ _ _) end).
+  - destruct (nl_started s); [of_tac|]. match goal with |- others_from _ (tasks (acquire ?s1 _ _ _)) _ => exact (of_acquire s1 _ _ _) end.
+  - destruct (nl_closed s); [of_tac|]. simpl.
+    destruct (nl_started s); match goal with |- others_from _ (tasks (acquire ?s1 _ _ _)) _ => exact (of_acquire s1 _ _ _) end.
+  - destruct (cont_closed s); [of_tac|]. match goal with |- others_from _ (tasks (acquire ?s1 _ _ _)) _ => exact (of_acquire s1 _ _ _) end.
+  - destruct (cont_closed s); [of_tac|]. match goal with |- others_from _ (tasks (acquire ?s1 _ _ _)) _ => exact (of_acquire s1 _ _ _) end.
+  - destruct (running_process s); of_tac.
+  - destruct (send_command s); of_tac.
+Qed.
+
+Lemma of_do_step s t : others_from (tasks s) (tasks (do_step s t)) t.
+Proof.
+  unfold do_step. destruct (find_task (tasks s) t) as [[c p]|]; [|apply of_refl].
+  destruct p; try of_tac; try apply of_enter.
+  - destruct c; try of_tac. eapply of_trans; [apply of_rel|]. rewrite <- release_tasks. apply of_acquire.
+  - destruct (started_ev s); of_tac.
+  - destruct c; of_tac.
+  - destruct c; of_tac.
+  - unfold reset_reinit. destruct (st_fsm s); try of_tac. destruct (runt s); of_tac.
+  - unfold reset_reinit. destruct (runt s); of_tac.
+  - destruct (run_finished s) as [[|]|]; try of_tac. apply of_close_trigger.
+  - unfold close_enter_closed. destruct (runt s); of_tac.
+  - destruct (run_finished s) as [[|]|]; of_tac.
+Qed.
+
+Lemma find_refuse s t c : find_task (tasks (refuse s t c)) t = None.
+Proof. destruct (refuse_rest s t c) as (_ & _ & _ & _ & ->). apply find_remove_eq. Qed.
+
+Ltac own_tac :=
+  fsimpl; rewrite ?find_refuse, ?find_put_eq, ?find_remove_eq;
+  let H := fresh in let Hp := fresh in
+  intros H Hp; try discriminate H; inversion H; subst; simpl in Hp; try discriminate Hp.
+
+Lemma close_trigger_own s t c' p' :
+  find_task (tasks (close_trigger s t)) t = Some (c', p') -> runpc p' = true -> False.
+Proof.
+  unfold close_trigger, close_enter_closed. destruct (st_fsm s); try (own_tac; fail).
+  destruct (runt s); own_tac.
+Qed.
+
+Lemma enter_own s t c b c' p' :
+  find_task (tasks (enter s t c b)) t = Some (c', p') -> runpc p' = true ->
+  find_task (tasks s) t = Some (c', p') \/
+  (c' = c /\ p' = R_WaitStarted /\ runlike c = true /\ st_fsm s = Initialized /\ st_fsm (enter s t c b) = Running).
+Proof.
+  unfold enter, enter_start, enter_run, enter_reset, enter_close.
+  destruct c; try (destruct (st_fsm s) eqn:Efs; own_tac; right; auto 10; fail); auto.
+  - destruct (st_fsm s); try (own_tac; fail); destruct (o_stmt o); own_tac.
+  - destruct b.
+    + simpl. intros H Hp. exfalso.
+      destruct (st_fsm s); try (apply (close_trigger_own (publish s PEndAll) t _ _ H Hp)).
+      destruct (run_finished s) as [[|]|]; try (apply (close_trigger_own (publish s PEndAll) t _ _ H Hp));
+        revert H Hp; own_tac.
+    + destruct (st_fsm s); own_tac.
+Qed.
+
+Lemma acquire_own s t c b c' p' :
+  find_task (tasks (acquire s t c b)) t = Some (c', p') -> runpc p' = true ->
+  c' = c /\ p' = R_WaitStarted /\ runlike c = true /\ st_fsm s = Initialized /\ st_fsm (acquire s t c b) = Running.
+Proof.
+  unfold acquire. destruct (holder s); [destruct b; own_tac|]. destruct (lockq s); [|destruct b; own_tac].
+  intros H Hp. destruct (enter_own _ _ _ _ _ _ H Hp) as [H0 | H0]; [|exact H0].
+  exfalso. simpl in H0. rewrite find_put_eq in H0. inversion H0; subst. destruct b; discriminate.
+Qed.
+
+Lemma do_call_own s t c c' p' :
+  find_task (tasks s) t = None ->
+  find_task (tasks (do_call s t c)) t = Some (c', p') -> runpc p' = true ->
+  c' = c /\ p' = R_WaitStarted /\ runlike c = true /\ st_fsm s = Initialized /\ st_fsm (do_call s t c) = Running.
+Proof.
+  intros Ef. unfold do_call. rewrite Ef.
+  destruct c; cbn [nl_started nl_closed cont_closed running_process send_command set_trace];
+    try (match goal with |- find_task (tasks (acquire ?s1 _ _ _)) _ = _ -> _ => exact (acquire_own s1 _ _ _ _ _) end).
+  - destruct (nl_started s); [own_tac|].
+    match goal with |- find_task (tasks (acquire ?s1 _ _ _)) _ = _ -> _ => exact (acquire_own s1 _ _ _ _ _) end.
+  - destruct (nl_closed s); [own_tac|]. simpl.
+    destruct (nl_started s);
+      match goal with |- find_task (tasks (acquire ?s1 _ _ _)) _ = _ -> _ => exact (acquire_own s1 _ _ _ _ _) end.
+  - destruct (cont_closed s); [own_tac|].
+    match goal with |- find_task (tasks (acquire ?s1 _ _ _)) _ = _ -> _ => exact (acquire_own s1 _ _ _ _ _) end.
+  - destruct (cont_closed s); [own_tac|].
+    match goal with |- find_task (tasks (acquire ?s1 _ _ _)) _ = _ -> _ => exact (acquire_own s1 _ _ _ _ _) end.
+  - destruct (running_process s); own_tac.
+  - destruct (send_command s); own_tac.
+Qed.
+
+Lemma do_step_own s t c0 p0 c p :
+  LkS s -> find_task (tasks s) t = Some (c0, p0) ->
+  find_task (tasks (do_step s t)) t = Some (c, p) -> runpc p = true ->
+  c = c0 /\ (runpc p0 = true \/
+             (p0 = Granted1 /\ p = R_WaitStarted /\ runlike c = true /\ st_fsm s = Initialized /\
+              st_fsm (do_step s t) = Running)).
+Proof.
+  intros HL Ef. pose proof (lk_compat _ _ _ HL _ _ _ Ef) as Hc. unfold do_step. rewrite Ef.
+  destruct p0; try (rewrite Ef; own_tac; auto; fail); try (own_tac; auto; fail).
+  - intros H Hp. destruct (enter_own _ _ _ _ _ _ H Hp) as [H0 | (-> & H0)].
+    + rewrite Ef in H0. inversion H0; subst. discriminate.
+    + split; auto; right; tauto.
+  - destruct c0; simpl in Hc; try discriminate. intros H Hp.
+    destruct (enter_own _ _ _ _ _ _ H Hp) as [H0 | (_ & _ & H0 & _)]; [|discriminate].
+    rewrite Ef in H0. inversion H0; subst. discriminate.
+  - destruct c0; simpl in Hc; try discriminate; [own_tac|]. intros H Hp.
+    destruct (acquire_own _ _ _ _ _ _ H Hp) as (_ & _ & H0 & _). discriminate.
+  - destruct (started_ev s); [own_tac; auto | rewrite Ef; own_tac; auto].
+  - destruct c0; own_tac; auto.
+  - destruct c0; try (rewrite Ef; own_tac; fail). own_tac.
+  - unfold reset_reinit. destruct (st_fsm s); try (own_tac; fail). destruct (runt s); own_tac.
+  - unfold reset_reinit. destruct (runt s); [rewrite Ef|]; own_tac.
+  - destruct (run_finished s) as [[|]|]; try (rewrite Ef; own_tac; fail).
+    intros H Hp. exfalso. eapply close_trigger_own; eauto.
+  - unfold close_enter_closed. destruct (runt s); [rewrite Ef|]; own_tac.
+  - destruct (run_finished s) as [[|]|]; try (rewrite Ef; own_tac; auto; fail). own_tac.
+Qed.
+
+Lemma task_back s l t c p :
+  LkS s -> find_task (tasks (step s l)) t = Some (c, p) -> runpc p = true ->
+  (exists p0, find_task (tasks s) t = Some (c, p0) /\ runpc p0 = true) \/
+  ((l = Step t \/ l = Call t c) /\ p = R_WaitStarted /\ runlike c = true /\ st_fsm s = Initialized /\
+   st_fsm (step s l) = Running).
+Proof.
+  intros HL H Hp.
+  assert (Hother : forall t', t <> t' -> others_from (tasks s) (tasks (step s l)) t' ->
+            exists p0, find_task (tasks s) t = Some (c, p0) /\ runpc p0 = true).
+  { intros t' Hn Ho. destruct (Ho _ _ _ Hn H) as (p0 & Hf0 & Hp0).
+    assert (E : p = p0) by (apply runpc_granted; auto). subst p0. eauto. }
+  destruct l as [t' c' | t' | | o]; simpl in *.
+  - destruct (Nat.eq_dec t t') as [<- | Hn]; [|left; apply (Hother t' Hn); apply of_do_call].
+    destruct (find_task (tasks s) t) as [x|] eqn:Ef.
+    + left. unfold do_call in H. rewrite Ef in H. rewrite Ef in H. inversion H; subst. eauto.
+    + right. destruct (do_call_own s t c' c p Ef H Hp) as (-> & H1 & H2 & H3 & H4). auto 10.
+  - destruct (Nat.eq_dec t t') as [<- | Hn]; [|left; apply (Hother t' Hn); apply of_do_step].
+    destruct (find_task (tasks s) t) as [[c0 p0]|] eqn:Ef.
+    + destruct (do_step_own s t c0 p0 c p HL Ef H Hp) as (-> & [H0 | (_ & H1 & H2 & H3 & H4)]); [left; eauto | right; auto 10].
+    + left. unfold do_step in H. rewrite Ef in H. rewrite Ef in H. discriminate.
+  - left. destruct (slk_step_run s) as (_ & _ & E). rewrite E in H. eauto.
+  - left. unfold do_child_exit in H. destruct (alive s); simpl in H; eauto.
+Qed.
+
+(** the moment a run request was accepted: a prefix [ls1] of the label sequence and the
+    label [l1] (the request's own [Step], or its [Call] when the lock was free) *)
+Definition accepted_at (init : state) (ls1 : list label) (l1 : label) (t : nat) (c : call) : Prop :=
+  let s1 := run_labels init ls1 in
+  st_fsm s1 = Initialized /\ runt s1 = None /\ alive s1 = 0%nat /\ pending_exit s1 = None /\
+  (l1 = Step t \/ l1 = Call t c) /\ runlike c = true /\
+  st_fsm (step s1 l1) = Running /\ find_task (tasks (step s1 l1)) t = Some (c, R_WaitStarted).
+
+Definition nook (new : list event) : Prop := forall t c, ~ In (EvRet t c ROk) new.
+
+Lemma g_enter_run s t c : grows nook s (enter_run s t c).
+Proof.
+  unfold enter_run.
+  assert (Hr : grows nook s (refuse s t c)).
+  { destruct (refuse_new s t c) as (new & En & Hnew). exists new. split; auto.
+    intros t' c' Hin. destruct Hnew as [(-> & _) | (_ & _ & b & ->)]; simpl in Hin;
+      repeat (destruct Hin as [Hin | Hin]; try discriminate Hin; try contradiction). }
+  destruct (st_fsm s); auto. exists []. split; [reflexivity | intros t' c' []].
+Qed.
+
+Lemma nook_app a b : nook a -> nook b -> nook (a ++ b).
+Proof. intros Ha Hb t c Hin. apply in_app_or in Hin. destruct Hin; [eapply Ha | eapply Hb]; eauto. Qed.
+
+Lemma enter_runlike s t c b : runlike c = true -> enter s t c b = enter_run s t c.
+Proof. destruct c; simpl; try discriminate; reflexivity. Qed.
+
+Lemma g_acquire_run s0 s1 t c pre :
+  runlike c = true -> trace s1 = pre ++ trace s0 -> nook pre -> grows nook s0 (acquire s1 t c false).
+Proof.
+  intros Hc E Hp. unfold acquire.
+  assert (Hq : forall x, trace x = trace s1 -> grows nook s0 x) by (intros x Ex; exists pre; rewrite Ex; auto).
+  destruct (holder s1); [apply Hq; reflexivity|]. destruct (lockq s1); [|apply Hq; reflexivity].
+  rewrite enter_runlike by assumption.
+  destruct (g_enter_run (set_pc (set_holder s1 (Some t)) t c Granted1) t c) as (n & En & Hn).
+  exists (n ++ pre). split; [rewrite En; simpl; rewrite E, app_assoc; reflexivity | apply nook_app; auto].
+Qed.
+
+Lemma nook_not_in s s' t c : grows nook s s' -> ~ In (EvRet t c ROk) (appended s s').
+Proof.
+  intros (new & E & H) Hin. rewrite (appended_ext _ _ _ E) in Hin. apply in_rev in Hin. eapply H; eauto.
+Qed.
+
+Lemma call_runlike_no_ok s t c t0 c0 :
+  runlike c = true -> find_task (tasks s) t = None -> ~ In (EvRet t0 c0 ROk) (appended s (do_call s t c)).
+Proof.
+  intros Hc Ef. apply nook_not_in. unfold do_call. rewrite Ef.
+  assert (H1 : nook [EvCall t c]) by (intros t' c' [E | []]; discriminate).
+  assert (H2 : nook [EvPub (PCont true); EvCall t c]) by (intros t' c' [E | [E | []]]; discriminate).
+  destruct c; simpl in Hc; try discriminate;
+    cbn [nl_started nl_closed cont_closed running_process send_command set_trace].
+  - apply (g_acquire_run s _ t CRun [EvCall t CRun]); auto.
+  - destruct (cont_closed s).
+    + eexists [_; _]. split; [reflexivity|]. intros t' c' [E | [E | []]]; discriminate.
+    + apply (g_acquire_run s _ t CRunCont [EvPub (PCont true); EvCall t CRunCont]); auto.
+  - destruct (cont_closed s).
+    + eexists [_; _]. split; [reflexivity|]. intros t' c' [E | [E | []]]; discriminate.
+    + apply (g_acquire_run s _ t CRunContWait [EvPub (PCont true); EvCall t CRunContWait]); auto.
+  - apply (g_acquire_run s _ t CRunSession [EvCall t CRunSession]); auto.
+Qed.
+
+Lemma ok_ret_pc s t c p t0 c0 :
+  find_task (tasks s) t = Some (c, p) -> runlike c = true -> compat c p = true ->
+  In (EvRet t0 c0 ROk) (appended s (do_step s t)) -> runpc p = true.
+Proof.
+  intros Ef Hc Hcp Hin. destruct (runpc p) eqn:Hp; auto. exfalso.
+  eapply nook_not_in; [|exact Hin]. unfold do_step. rewrite Ef.
+  destruct p; simpl in Hp; try discriminate; destruct c; simpl in Hc, Hcp; try discriminate;
+    try (exists []; split; [reflexivity | intros ? ? []]);
+    rewrite enter_runlike by reflexivity; apply g_enter_run.
+Qed.
+
+Lemma StepOK_own s s' t0 c0 t c r :
+  StepOK s s' t0 c0 -> In (EvRet t c r) (appended s s') -> t = t0 /\ c = c0.
+Proof.
+  intros [HQ | [(Hc & HR) | (Hc & r0 & new & E & Hn)]] Hin.
+  - exfalso. eapply Quiet_no_ret; eauto.
+  - destruct HR as (new & E & Hn & Hrest).
+    change (EvRet t0 CClose ROk :: new ++ trace s) with ((EvRet t0 CClose ROk :: new) ++ trace s) in E.
+    rewrite (appended_ext _ _ _ E) in Hin. apply in_rev in Hin.
+    destruct Hin as [Heq | Hin]; [inversion Heq; subst; auto | exfalso; eapply Hn; eauto].
+  - change (EvRet t0 c0 r0 :: new ++ trace s) with ((EvRet t0 c0 r0 :: new) ++ trace s) in E.
+    rewrite (appended_ext _ _ _ E) in Hin. apply in_rev in Hin.
+    destruct Hin as [Heq | Hin]; [inversion Heq; subst; auto | exfalso; eapply Hn; eauto].
+Qed.
+
+(** a return belongs to the task and the call whose label it is *)
+Lemma ret_own s l t c r :
+  LkS s -> FI s -> CI s -> In (EvRet t c r) (appended s (step s l)) ->
+  (l = Call t c /\ find_task (tasks s) t = None) \/ (exists p, l = Step t /\ find_task (tasks s) t = Some (c, p)).
+Proof.
+  intros HL HF HC Hin. destruct l as [t' c' | t' | | o]; simpl in *.
+  - destruct (find_task (tasks s) t') eqn:Ef.
+    + unfold do_call in Hin. rewrite Ef in Hin. rewrite appended_same in Hin by reflexivity. destruct Hin.
+    + destruct (SO_do_call s t' c' HF HC Ef) as [(-> & _ & E) | (_ & H)].
+      * rewrite E in Hin. rewrite (appended_ext _ _ [EvRet t' CClose ROk; EvCall t' CClose]) in Hin by reflexivity.
+        simpl in Hin. destruct Hin as [E1 | [E1 | []]]; [discriminate|]. inversion E1; subst. auto.
+      * destruct (StepOK_own _ _ _ _ _ _ _ H Hin) as (-> & ->). auto.
+  - destruct (find_task (tasks s) t') as [[c' p]|] eqn:Ef.
+    + destruct (StepOK_own _ _ _ _ _ _ _ (SO_do_step s t' c' p HL HF HC Ef) Hin) as (-> & ->). eauto.
+    + unfold do_step in Hin. rewrite Ef in Hin. rewrite appended_same in Hin by reflexivity. destruct Hin.
+  - exfalso. eapply Quiet_no_ret; [apply Quiet_step_run | exact Hin].
+  - exfalso. eapply Quiet_no_ret; [apply Quiet_child_exit | exact Hin].
+Qed.
+
+Section Accepted.
+  Variables (stmt start : Z) (th md : bool).
+  Let init := init_state stmt start th md.
+
+  Lemma acc_inv ls : forall t c p,
+    find_task (tasks (run_labels init ls)) t = Some (c, p) -> runpc p = true ->
+    exists ls1 l1 ls2, ls = ls1 ++ l1 :: ls2 /\ accepted_at init ls1 l1 t c.
+  Proof.
+    induction ls as [|l ls IH] using rev_ind; intros t c p Hf Hp; [discriminate|].
+    rewrite run_labels_app in Hf. simpl in Hf.
+    destruct (Close.all_inv stmt start th md ls) as (HL & HF & _). fold init in HL, HF.
+    destruct (task_back _ _ _ _ _ HL Hf Hp) as [(p0 & Hf0 & Hp0) | (Hl & -> & Hc & Hi & Hr)].
+    - destruct (IH _ _ _ Hf0 Hp0) as (ls1 & l1 & ls2 & -> & Ha).
+      exists ls1, l1, (ls2 ++ [l]). split; auto. rewrite <- app_assoc. reflexivity.
+    - exists ls, l, []. split; auto. unfold accepted_at. cbv zeta.
+      destruct HF as [_ HS].
+      assert (Hrn : runt (run_labels init ls) = None) by (eapply Scal_idle; [exact HS | |]; rewrite Hi; discriminate).
+      pose proof (sc_child _ _ _ _ _ _ HS) as Hch. rewrite Hrn in Hch. destruct Hch as (Ha & Hpe).
+      repeat split; auto.
+  Qed.
+
+  Theorem accepted_run_implies_idle ls l t c :
+    let s := run_labels init ls in
+    runlike c = true -> In (EvRet t c ROk) (appended s (step s l)) ->
+    exists ls1 l1 ls2, ls = ls1 ++ l1 :: ls2 /\ accepted_at init ls1 l1 t c.
+  Proof.
+    intros s Hc Hin. destruct (Close.all_inv stmt start th md ls) as (HL & HF & HC). fold init in HL, HF, HC. fold s in HL, HF, HC.
+    destruct (ret_own s l t c ROk HL HF HC Hin) as [(-> & Ef) | (p & -> & Ef)].
+    - exfalso. simpl in Hin. eapply call_runlike_no_ok; eauto.
+    - simpl in Hin. pose proof (lk_compat _ _ _ HL _ _ _ Ef) as Hcp.
+      pose proof (ok_ret_pc s t c p t c Ef Hc Hcp Hin) as Hp.
+      apply (acc_inv ls t c p Ef Hp).
+  Qed.
+End Accepted.
+
+(** ---- the statements, for every label sequence ---- *)
+Lemma refused_fields s s' l t c : refused_step s s' l t c ->
+  st_fsm s' = st_fsm s /\ runt s' = runt s /\ run_finished s' = run_finished s /\ alive s' = alive s /\
+  pending_exit s' = pending_exit s /\ run_arg s' = run_arg s /\ exited_proc s' = exited_proc s /\
+  started_ev s' = started_ev s /\
+  c_stmt s' = c_stmt s /\ c_next s' = c_next s /\ c_threads s' = c_threads s /\ c_modules s' = c_modules s /\
+  nl_started s' = nl_started s /\ nl_closed s' = nl_closed s /\ run_owner s' = run_owner s /\
+  run_cont s' = run_cont s /\ running_process s' = running_process s /\ send_command s' = send_command s /\
+  cont_closed s' = cont_closed s.
+Proof.
+  intros (_ & _ & Hc & Hr & _).
+  destruct (core_fields _ _ Hc) as (E1 & E2 & E3 & E4 & E5 & E6 & E7 & E8 & _).
+  unfold rest_of in Hr. inversion Hr. repeat split; auto.
+Qed.
+
+Section ReachRefusal.
+  Variables (stmt start : Z) (th md : bool) (ls : list label).
+  Let s := run_labels (init_state stmt start th md) ls.
+
+  Lemma rr_inv : LkS s /\ FI s /\ CI s.
+  Proof. apply Close.all_inv. Qed.
+
+  Lemma all_refused_on_history l t c :
+    let s' := step s l in
+    let r := EvRet t c RMachineError in
+    In r (appended s s') ->
+    ((l = Step t /\ holder s = Some t /\ find_task (tasks s) t = Some (c, Granted1) /\
+      (appended s s' = [r] \/ (is_cont c = true /\ exists b, appended s s' = [EvPub (PCont b); r])) /\
+      holder s' = rel_holder (lockq s) /\ lockq s' = tl (lockq s) /\
+      tasks s' = remove_task (rel_tasks (lockq s) (tasks s)) t)
+     \/
+     (l = Call t c /\ holder s = None /\ lockq s = [] /\ find_task (tasks s) t = None /\
+      ((is_cont c = false /\ appended s s' = [EvCall t c; r]) \/
+       (is_cont c = true /\ exists b, appended s s' = [EvCall t c; EvPub (PCont true); EvPub (PCont b); r])) /\
+      holder s' = None /\ lockq s' = [] /\ tasks s' = tasks s))
+    /\ disallowed c false (st_fsm s)
+    /\ (st_fsm s' = st_fsm s /\ runt s' = runt s /\ run_finished s' = run_finished s /\ alive s' = alive s /\
+        pending_exit s' = pending_exit s /\ run_arg s' = run_arg s /\ exited_proc s' = exited_proc s /\
+        started_ev s' = started_ev s /\
+        c_stmt s' = c_stmt s /\ c_next s' = c_next s /\ c_threads s' = c_threads s /\ c_modules s' = c_modules s /\
+        nl_started s' = nl_started s /\ nl_closed s' = nl_closed s /\ run_owner s' = run_owner s /\
+        run_cont s' = run_cont s /\ running_process s' = running_process s /\ send_command s' = send_command s /\
+        cont_closed s' = cont_closed s)
+    /\ cont_plugins s' = (if is_cont c then filter (unreg t) (cont_plugins s) else cont_plugins s)
+    /\ hooks_of (history s') = hooks_of (history s).
+  Proof.
+    intros s' r Hin. destruct rr_inv as (HL & _ & HC).
+    pose proof (refused_on_history s l t c HL HC Hin) as H.
+    pose proof (refused_fields _ _ _ _ _ H) as Hf.
+    destruct H as (H1 & H2 & _ & _ & H5 & H6). auto.
+  Qed.
+
+  Lemma all_run_error_iff t c :
+    runlike c = true -> find_task (tasks s) t = Some (c, Granted1) ->
+    let s' := step s (Step t) in
+    holder s = Some t /\
+    (In (EvRet t c RMachineError) (appended s s') <-> st_fsm s <> Initialized) /\
+    (st_fsm s = Initialized ->
+     st_fsm s' = Running /\ runt s' = Some RT_New /\ run_finished s' = Some false /\ run_owner s' = t /\
+     find_task (tasks s') t = Some (c, R_WaitStarted) /\ trace s' = trace s).
+  Proof.
+    intros Hc Ef s'. destruct rr_inv as (HL & _ & _).
+    destruct (granted_outcome s t c HL Ef (or_introl Hc)) as (Hh & Hiff & Hacc).
+    split; auto. split.
+    - rewrite <- (runlike_disallowed c (st_fsm s) Hc). exact Hiff.
+    - intros Hi. assert (Hnd : ~ disallowed c false (st_fsm s)) by (rewrite (runlike_disallowed c _ Hc); tauto).
+      specialize (Hacc Hnd). unfold accepted_effect in Hacc. destruct c; simpl in Hc; try discriminate; exact Hacc.
+  Qed.
+
+  Lemma all_reset_error_iff t o :
+    find_task (tasks s) t = Some (CReset o, Granted1) ->
+    let s' := step s (Step t) in
+    holder s = Some t /\
+    (In (EvRet t (CReset o) RMachineError) (appended s s') <-> (st_fsm s <> Initialized /\ st_fsm s <> Finished)) /\
+    (st_fsm s = Initialized \/ st_fsm s = Finished ->
+     st_fsm s' = st_fsm s /\ runt s' = runt s /\
+     exists p, (p = Z_G1 \/ p = Z_G1b) /\ find_task (tasks s') t = Some (CReset o, p)).
+  Proof.
+    intros Ef s'. destruct rr_inv as (HL & _ & _).
+    destruct (granted_outcome s t (CReset o) HL Ef) as (Hh & Hiff & Hacc); [right; eauto|].
+    split; auto. split; [exact Hiff|]. intros Hi. apply Hacc. simpl. tauto.
+  Qed.
+
+  Lemma all_direct_error_iff t c :
+    find_task (tasks s) t = None -> (runlike c = true \/ exists o, c = CReset o) ->
+    (is_cont c = true -> cont_closed s = false) ->
+    let s' := step s (Call t c) in
+    (holder s = None -> lockq s = [] ->
+     (In (EvRet t c RMachineError) (appended s s') <-> disallowed c false (st_fsm s)) /\
+     (~ disallowed c false (st_fsm s) ->
+      match c with
+      | CReset o => st_fsm s' = st_fsm s /\ runt s' = runt s /\
+                    exists p, (p = Z_G1 \/ p = Z_G1b) /\ find_task (tasks s') t = Some (c, p)
+      | _ => st_fsm s' = Running /\ runt s' = Some RT_New /\ run_finished s' = Some false /\ run_owner s' = t /\
+             find_task (tasks s') t = Some (c, R_WaitStarted)
+      end)) /\
+    (holder s <> None \/ lockq s <> [] ->
+     find_task (tasks s') t = Some (c, WaitLock1) /\
+     forall t0 c0 r, ~ In (EvRet t0 c0 r) (appended s s')).
+  Proof.
+    intros Ef Hc Hcc s'. destruct rr_inv as (HL & _ & HC).
+    destruct (direct_outcome s t c Ef Hc Hcc) as (H1 & H2). split.
+    - intros Hh Hq. destruct (H1 Hh Hq) as (Ha & Hb). split; auto. split; auto.
+      intros Hin. apply (refused_on_history s (Call t c) t c HL HC Hin).
+    - intros Hb. destruct (H2 Hb) as (A & _ & B). auto.
+  Qed.
+
+  Lemma all_second_run_refused t c :
+    runt s <> None -> runlike c = true ->
+    (find_task (tasks s) t = Some (c, Granted1) ->
+     In (EvRet t c RMachineError) (appended s (step s (Step t)))) /\
+    (find_task (tasks s) t = None -> holder s = None -> lockq s = [] ->
+     (is_cont c = true -> cont_closed s = false) ->
+     In (EvRet t c RMachineError) (appended s (step s (Call t c)))).
+  Proof.
+    intros Hr Hc. destruct rr_inv as (HL & HF & _). split.
+    - apply second_run_refused; auto.
+    - intros Ef Hh Hq Hcc. apply second_run_refused_call; auto.
+  Qed.
+
+  Lemma all_reset_refused_while_running t o :
+    st_fsm s = Running -> find_task (tasks s) t = Some (CReset o, Granted1) ->
+    In (EvRet t (CReset o) RMachineError) (appended s (step s (Step t))).
+  Proof. destruct rr_inv as (HL & _ & _). apply reset_refused_while_running; auto. Qed.
+
+  Lemma all_reset_waits t c p :
+    runt s <> None -> find_task (tasks s) t = Some (c, p) -> p = Z_G1b \/ p = Z_WaitRunTask ->
+    let s' := step s (Step t) in
+    st_fsm s' = st_fsm s /\ run_arg s' = run_arg s /\ c_next s' = c_next s /\ runt s' = runt s /\
+    hooks_of (history s') = hooks_of (history s) /\ pubs_of (history s') = pubs_of (history s) /\
+    find_task (tasks s') t = Some (c, Z_WaitRunTask).
+  Proof.
+    intros Hr Ef Hp s'. destruct rr_inv as (HL & HF & _). pose proof HF as [HP HS]. pose proof (HP _ _ _ Ef) as Hok.
+    unfold s'. simpl. unfold do_step. rewrite Ef. destruct (runt s) as [x|] eqn:Er; [|congruence].
+    destruct Hp as [-> | ->]; simpl in Hok.
+    - destruct (st_fsm s) eqn:Efs; try discriminate.
+      + exfalso. assert (E0 : Some x = None) by (eapply Scal_idle; [exact HS | discriminate | discriminate]). discriminate.
+      + simpl. rewrite find_put_eq. repeat split; auto.
+    - repeat split; auto.
+  Qed.
+End ReachRefusal.
+
+Lemma all_accepted_run_implies_idle : forall stmt start th md ls l t c,
+  let init := init_state stmt start th md in
+  let s := run_labels init ls in
+  runlike c = true -> In (EvRet t c ROk) (appended s (step s l)) ->
+  exists ls1 l1 ls2, ls = ls1 ++ l1 :: ls2 /\
+    let s1 := run_labels init ls1 in
+    st_fsm s1 = Initialized /\ runt s1 = None /\ alive s1 = 0%nat /\ pending_exit s1 = None /\
+    (l1 = Step t \/ l1 = Call t c) /\ runlike c = true /\
+    st_fsm (step s1 l1) = Running /\ find_task (tasks (step s1 l1)) t = Some (c, R_WaitStarted).
+Proof. intros stmt start th md ls l t c. exact (accepted_run_implies_idle stmt start th md ls l t c). Qed.
+
+(** a history with a refused request in the middle and an accepted one *)
+Definition refusal_labels : list label :=
+  [Call 0%nat CStart; Step 0%nat; Step 0%nat; Step 0%nat;
+   Call 1%nat CRun; StepRun; StepRun;
+   Call 2%nat CRunCont;                      (* queues behind the run() call *)
+   StepRun; Step 1%nat; Step 1%nat].         (* run() returns ROk and hands the lock to task 2 *)
+Definition refusal_state : state := run_labels (init_state 7 1 false false) refusal_labels.
